@@ -33,7 +33,7 @@ def level_parts(rng):
 
 
 def gen_case(ctx, rng, shared_keys=False, dates=False):
-    gen = T.TreeGen(rng, level_parts(rng), max_depth=2 if ctx.quick else rng.choice([2, 3]), max_branch=rng.choice([3, 4]), p_pool=0.15, input_fn=lambda d: rng.choice([f"in-{d}"] * 8 + [None, ""]))
+    gen = T.TreeGen(rng, level_parts(rng), max_depth=2 if ctx.quick else rng.choice([2, 3]), max_branch=rng.choice([3, 4]), p_pool=0.15, input_fn=lambda d: rng.choice([f"in-{d}"] * 7 + [None, "", f" in-{d}", f"in-{d} ", f"\tin-{d}\n", "   "]))
     spec = gen.tree()
     keys = list(ALL_FC_KEYS)
     rng.shuffle(keys)
@@ -84,7 +84,7 @@ def gen_case(ctx, rng, shared_keys=False, dates=False):
             n += 1
         owners = {}
     asg = {k: rng.choice("FFFU") for k in RC}
-    return {"spec": spec, "owners": owners, "asg": asg, "soll": rng.random() < 0.5, "schedule_seed": rng.randrange(1 << 30), "shared": shared_keys, "stale": rng.random() < 0.5}
+    return {"spec": spec, "owners": owners, "asg": asg, "soll": rng.random() < 0.5, "schedule_seed": rng.randrange(1 << 30), "shared": shared_keys, "stale": rng.random() < 0.5, "constant_objects": shared_keys and rng.random() < 0.6}
 
 
 async def check_tree(ctx, case):
@@ -92,7 +92,9 @@ async def check_tree(ctx, case):
     ctx.set_case("tree", case)
     ctx.count("trees")
     inputs = {n["d"]: n["input"] for n in T.walk(spec) if n["k"] == "F"}
-    world = E.World("c15", rc=asg, fc_mode="text")
+    world = E.World("c15", rc=asg, fc_mode="text-constant-objects" if case.get("constant_objects") else "text")
+    if case.get("constant_objects"):
+        ctx.count("trees_with_reused_result_objects")
     chooser = sched.RandomChooser(random.Random(case["schedule_seed"]))
     sc = sched.Sched(chooser)
     out = await TB.validate(spec, world, soll, scheduler=sc, stale_text=case.get("stale", False))
@@ -157,7 +159,7 @@ async def check_tree(ctx, case):
                 ctx.violation("element-not-reported", f"free-text element {d['d']} of the visited segment {seg['d']} is missing from the report")
                 return
             obj = TB.build_data_element(d)
-            alone_world = E.World("c15", rc=asg, fc_mode="text")
+            alone_world = E.World("c15", rc=asg, fc_mode=world.fc_mode)
 
             async def go(obj=obj, alone_world=alone_world):
                 E.set_world(alone_world)
